@@ -207,6 +207,12 @@ def rule_d(ctx):
     c02.rule_a(ctx)
     c12.rule_a(ctx)
     c12.rule_b(ctx)
+    # an init that sends through an output completes only if the broadcast completes: the broadcaster's polling discipline (C04.h)
+    from . import bcast, c03
+    for w in ("output", "source"):
+        bcast.poll_rules(ctx, w)
+    bcast.output_slot_rules(ctx)
+    c03.rule_b(ctx)
 
 RULES = [
     ("C16.d", "messages sent before init are enqueued (send completes only when enqueued; slot hand-over discipline)", rule_d),
